@@ -100,7 +100,7 @@ Definition tc_binop (op : binop) (l r : ty) : option ty :=
         Some (if equal l zahl && equal r zahl then zahl
               else if equal l byte && equal r byte then byte
               else if equal l komma || equal r komma then komma
-              else byte)
+              else zahl)                       (* Zahl and Byte mixed: the Byte is widened *)
       else None
   | BIN_INDEX =>
       if (is_list l || equal l text) && is_one_of r zb
@@ -175,5 +175,5 @@ Definition ctx_admits (c : ctx) (t : ty) : bool :=
   | CArg d => equal t d
   | CReturn d => equal d t || is_any d
   | CCond => equal t wahr
-  | CElem => true
+  | CElem => negb (is_list t)     (* VisitListLit: TYP_BAD_LIST_LITERAL for an element that is a list *)
   end.
